@@ -821,7 +821,17 @@ EXT2 = {
     "C20": dict(level_text=(" Part edges: initial timestamps at the edges of the int64 range and at 31/32/62/63-bit distances, in every listing order. All parts: configurations dressed with the fields the "
                             "target ignores and with the generator oneof (empty random{} block, mirrored seed/values); the Client's output equals queue.New's, a second Client on a deep-equal Config agrees.")),
 }
-for _pid, _ex in EXT2.items():
+# round 5 (seeds I, J)
+EXT3 = {
+    "C07": dict(level_text=(" Further (a tenth of the scenarios): writer notifications handed to the exported per-target entry point of ANOTHER target than the one their prefix names "
+                            "(cache.GetTarget(x).GnmiUpdate): stored in x's tree, every response built from them still names the prefix target, so a caller authorised for x and denied the named "
+                            "target must not be sent them (single-target and all-targets subscriptions alike)."),
+                level_note="; scenarios with such a foreign write are judged by the trace monitors only (nothing denied is ever handed to Send; status codes), convergence is not defined for them"),
+    "C08": dict(level_text=(" Third structured shape (an eighth of the cases): a POLL client that stops reading and keeps sending 1-300 poll triggers (letting a send pass now and then) against an "
+                            "unchanging cache, next to other subscribers: what it is sent after its last trigger is bounded by the distinct matching leaves + the response in flight + one sync marker, "
+                            "whatever the number of triggers; or it stays away and the next sleep step judges the send timeout of the POLL subscription.")),
+}
+for _pid, _ex in list(EXT2.items()) + list(EXT3.items()):
     EXT.setdefault(_pid, {})
     for _k, _v in _ex.items():
         EXT[_pid][_k] = EXT[_pid].get(_k, "") + _v
